@@ -126,7 +126,10 @@ NextQuick == \/ PickA({1, 4, 7, 8, 12, 16, 31, 32, 64}, {-1, 3, 4, 7}, {-1, 2}) 
 NextThorough == \/ PickA({1, 2, 3, 4, 5, 7, 8, 9, 12, 15, 16, 17, 24, 30, 31, 32, 33, 48, 63, 64}, {-1, 0, 1, 2, 3, 4, 5, 6, 7}, {-1, 0, 2})
                 \/ PickA2 \/ PickB \/ PickC1 \/ PickC2 \/ PickC3 \/ Evaluate
 \* C04: the same shapes with the wrong values
-NextC04Quick == \/ PickA({1, 3, 4, 7, 8, 16, 32, 64}, {-1, 3}, {-1}) \/ PickA2 \/ PickB \/ PickC1 \/ Evaluate
+\* an object that moves the origin, followed by an explicitly positioned sibling
+PickC2C04 == \E a \in {sh \in Inner(1) : sh[1].dop.k = "mux"}, bp \in {1, 3, 4} :
+                 Pick(D(<<SID>> \o a \o <<Value("p2", bp, -1, SimpleA(U8, {IntV(5), IntV(200), IntV(256), Bad("str")}))>>))
+NextC04Quick == \/ PickA({1, 3, 4, 7, 8, 16, 32, 64}, {-1, 3}, {-1}) \/ PickA2 \/ PickB \/ PickC1 \/ PickC2C04 \/ Evaluate
 NextC04Thorough == \/ PickA({1, 2, 3, 4, 5, 6, 7, 8, 12, 16, 31, 32, 33, 63, 64}, {-1, 0, 3, 7}, {-1, 2}) \/ PickA2 \/ PickB \/ PickC1 \/ PickC2 \/ Evaluate
 SpecC04Quick == Init /\ [][NextC04Quick]_vars
 SpecC04Thorough == Init /\ [][NextC04Thorough]_vars
